@@ -61,7 +61,15 @@ def main(argv) -> int:
             with open(cpath, "w") as fh:
                 json.dump(counter, fh)
 
-    atheris.Setup([sys.argv[0], f"-runs={runs}", f"-seed={seed if seed else 1}", "-max_len=2048", "-print_final_stats=0", "-verbosity=0", os.path.join(outdir, "corpus")], target.hypothesis.fuzz_one_input)
+    # Hypothesis needs enough bytes to finish an example: start from a few long pseudo-random inputs
+    # (a pure function of the seed) and let libFuzzer use long inputs from the beginning
+    import hashlib
+
+    for i in range(8):
+        blob = b"".join(hashlib.blake2b(b"%d:%d:%d" % (seed, i, k), digest_size=64).digest() for k in range(64 if i % 2 else 16))
+        with open(os.path.join(outdir, "corpus", "seed%d" % i), "wb") as fh:
+            fh.write(blob if i % 4 else bytes(len(blob)))
+    atheris.Setup([sys.argv[0], f"-runs={runs}", f"-seed={seed if seed else 1}", "-max_len=8192", "-len_control=0", "-print_final_stats=0", "-verbosity=0", os.path.join(outdir, "corpus")], target.hypothesis.fuzz_one_input)
     with open(cpath, "w") as fh:
         json.dump(counter, fh)
     atheris.Fuzz()
@@ -104,3 +112,30 @@ def run_campaign(prop: str, runs: int, seed: int, which: str = "default", timeou
 
 if __name__ == "__main__":
     sys.exit(main(sys.argv))
+
+
+# ---------------------------------------------------------------------- helpers for property modules
+
+
+def shards(prop, tier, seed, whichs=("default",), quick=(2, 3000), thorough=(16, 150000)):
+    from . import core
+
+    n, runs = quick if tier == "quick" else thorough
+    scale = float(os.environ.get("VERIF_SCALE", "1"))
+    runs = max(200, int(runs * scale))
+    return [{"part": "atheris", "prop": prop, "which": whichs[i % len(whichs)], "runs": runs, "seed": core.derive_seed(seed, "atheris", i)} for i in range(n)]
+
+
+def run_shard(col, mod, spec):
+    n, cases, note = run_campaign(spec["prop"], spec["runs"], spec["seed"], spec["which"])
+    col.evaluations += n
+    col.classes["atheris-executions"] += n
+    col.extra["atheris_campaigns"] = 1
+    if note:
+        col.notes["atheris-skipped:" + note[:80]] += 1
+    for case in cases:
+        try:
+            fails = mod.check_case(case)
+        except Exception:  # noqa: BLE001 - InvalidCase etc.
+            continue
+        col.case(case, True, ["atheris-finding"], fails)
